@@ -1156,3 +1156,163 @@ class SubsAffineExact(Contract):
         spec = ra.quad(x, a["P"], a["w"])
         cl.append(("density_at_every_point_equals_the_density_at_the_substituted_point", ra.verdict(T, got, spec)))
         return cl
+
+
+# ==================================================================================================
+@register
+class ExtractAffineExact(Contract):
+    """affine.extract_affine(fn) for a funsor that is jointly affine in its real inputs, fn(x_1..x_n) = b + sum_k <A_k, x_k>
+    with INDETERMINATE b, A_k (so: every such function): the returned (const, coeffs) satisfy the documented identity
+        const + sum_k einsum(eqn_k, coeff_k, x_k)  ==  fn(x_1..x_n)       at every real point,
+    with one entry per affine input, in input order, coeff_k of shape x_k.shape + fn.shape and eqn_k contracting exactly the
+    dims of x_k.  The probing (evaluate at zero, then at every basis vector through one integer probe variable, Lambda over
+    the probe, reshape) is the real code; fn(**subs), Tensor[...][var], Lambda and reshape are models with their contracts'
+    meaning.  shape family: 1..2 inputs of shapes (), (2,), (2,2), (1,2); output shapes (), (2,), (2,2)."""
+
+    props = ("C12",)
+    file = "funsor/affine.py"
+    qualname = "extract_affine"
+    total = True
+    assumptions = ASSUME
+    ground_backend = BACKEND
+    mutants = (
+        ("coefficient reshaped output-first", "coeff = Lambda(var, fn(**subs) - const).reshape(v.shape + const.shape)", "coeff = Lambda(var, fn(**subs) - const).reshape(const.shape + v.shape)"),
+        ("constant not removed from the probes", "coeff = Lambda(var, fn(**subs) - const).reshape(v.shape + const.shape)", "coeff = Lambda(var, fn(**subs)).reshape(v.shape + const.shape)"),
+        ("equation contracts the trailing dims", "        inputs2 = inputs1[: len(v.shape)]\n        output = inputs1[len(v.shape) :]", "        inputs2 = inputs1[len(coeff.shape) - len(v.shape) :]\n        output = inputs1[: len(coeff.shape) - len(v.shape)]"),
+    )
+
+    def structures(self, tier):
+        in_shapes = [(), (2,), (2, 2), (1, 2)]
+        out_shapes = [(), (2,), (2, 2)]
+        for o in out_shapes:
+            for a in in_shapes:
+                yield "in=%s,out=%s" % (list(a), list(o)), ((a,), o)
+            for a, b in (((), (2,)), ((2,), (2,)), ((2, 2), ()), ((1, 2), (2,))):
+                if tier == "quick" and len(o) == 2 and len(a) == 2:
+                    continue
+                yield "in=%s,%s,out=%s" % (list(a), list(b), list(o)), ((a, b), o)
+
+    def build(self, p, st):
+        in_shapes, out_shape = st
+        names = ["x", "y"][: len(in_shapes)]
+        shapes = dict(b=out_shape)
+        for n, sh in zip(names, in_shapes):
+            shapes["A_" + n] = tuple(sh) + tuple(out_shape)
+            shapes["pt_" + n] = tuple(sh)
+        T, a = mk_tower(**shapes)
+        ops_ = ra.OpsReal(T)
+
+        class VarR:
+            def __init__(self, name, dom):
+                self.name, self.output = name, dom
+
+        class TensorE(_Red):
+            """Tensor record with named leading batch dims; supports the few operations extract_affine uses"""
+
+            def __init__(self, data, inputs=None):
+                self.data = np.asarray(data, dtype=object)
+                self.inputs = OrderedDict(inputs or ())
+
+            @property
+            def shape(self):
+                return self.data.shape[len(self.inputs):]
+
+            def __getitem__(self, var):
+                if not isinstance(var, VarR) or self.inputs:
+                    raise Unsupported("Tensor index")
+                if self.data.shape[0] != var.output.size:
+                    raise Declined("AssertionError", "index size")
+                return TensorE(self.data, OrderedDict([(var.name, var.output)]))
+
+            def __sub__(self, o):
+                ins = OrderedDict(self.inputs)
+                ins.update(o.inputs)
+                if len(ins) > 1:
+                    raise Unsupported("two batch inputs")
+
+                def lift(t):
+                    d = t.data
+                    if ins and not t.inputs:
+                        d = d[None]
+                    return d
+
+                x, y = lift(self), lift(o)
+                # output dims align on the right as in funsor's Binary of Tensors: pad the shorter output shape on the left
+                nb = len(ins)
+                ex, ey = x.ndim - nb, y.ndim - nb
+                n = max(ex, ey)
+                x = x.reshape(x.shape[:nb] + (1,) * (n - ex) + x.shape[nb:])
+                y = y.reshape(y.shape[:nb] + (1,) * (n - ey) + y.shape[nb:])
+                return TensorE(x - y, ins)
+
+            def reshape(self, shape):
+                nb = len(self.inputs)
+                return TensorE(self.data.reshape(self.data.shape[:nb] + tuple(shape)), self.inputs)
+
+        def Lambda(var, t):
+            if list(t.inputs) != [var.name]:
+                raise Unsupported("Lambda over a variable that is not the only input")
+            return TensorE(t.data, OrderedDict())
+
+        inputs = OrderedDict((n, Dm("real", sh)) for n, sh in zip(names, in_shapes))
+
+        class AffFn:
+            def __init__(self):
+                self.inputs = inputs
+
+            def __call__(self, **subs):
+                if set(subs) != set(inputs):
+                    raise Unsupported("partial substitution into the affine function model")
+                ins = OrderedDict()
+                for v in subs.values():
+                    ins.update(v.inputs)
+                if len(ins) > 1:
+                    raise Unsupported("two batch inputs")
+                nb = len(ins)
+                bsz = tuple(d.size for d in ins.values())
+                out = np.broadcast_to(a["b"], bsz + tuple(out_shape)).copy()
+                for n, sh in zip(names, in_shapes):
+                    v = subs[n]
+                    d = v.data if v.inputs or not ins else v.data[None]
+                    if d.shape[nb:] != tuple(sh):
+                        raise Declined("ValueError", "value of the wrong shape")
+                    for bidx in itertools.product(*map(range, bsz)):
+                        acc = out[bidx]
+                        src = bidx if v.inputs else (0,) * nb
+                        for idx in itertools.product(*map(range, sh)):
+                            acc = acc + d[src + idx] * a["A_" + n][idx]
+                        out[bidx] = acc
+                return TensorE(out, ins)
+
+        import opt_einsum
+
+        class BintNS2:
+            def __getitem__(self, n):
+                return Dm(int(n))
+
+        ns = dict(OrderedDict=OrderedDict, ops=ops_, Tensor=lambda data, inputs=None: TensorE(data, inputs), Variable=VarR, Bint=BintNS2(), Lambda=Lambda, gensym=lambda prefix: prefix + "_0",
+                  get_default_prototype=lambda: None, affine_inputs=lambda fn: frozenset(fn.inputs), opt_einsum=opt_einsum, map=map, range=range, len=len)
+        return Ctx(args=(AffFn(),), namespace=ns, T=T, a=a, st=st, names=names, TensorE=TensorE)
+
+    def ensures(self, ctx, result):
+        in_shapes, out_shape = ctx.st
+        T, a = ctx.T, ctx.a
+        const, coeffs = result
+        cl = [("one_coefficient_per_affine_input_in_order", list(coeffs) == ctx.names and isinstance(const, ctx.TensorE) and not const.inputs)]
+        if not cl[0][1]:
+            return cl
+        spec = np.array(a["b"], dtype=object)
+        total = np.array(const.data, dtype=object)
+        shapes_ok = const.data.shape == tuple(out_shape)
+        for n, sh in zip(ctx.names, in_shapes):
+            coeff, eqn = coeffs[n]
+            shapes_ok = shapes_ok and not coeff.inputs and coeff.data.shape == tuple(sh) + tuple(out_shape)
+            if not shapes_ok:
+                break
+            total = total + np.einsum(eqn, coeff.data, a["pt_" + n])
+            for idx in itertools.product(*map(range, sh)):
+                spec = spec + a["pt_" + n][idx] * a["A_" + n][idx]
+        cl.append(("coefficients_have_shape_input_then_output", shapes_ok))
+        if shapes_ok:
+            cl.append(("constant_plus_einsum_terms_equal_the_function_at_every_point", ra.verdict(T, total, spec)))
+        return cl
